@@ -1,2 +1,8 @@
 import CorgiProofs.Lists
 import CorgiProofs.Index
+import CorgiProofs.Broadcast
+import CorgiProofs.EngineCount
+import CorgiProofs.EngineProcess
+import CorgiProofs.EngineFrame
+import CorgiProofs.EngineTop
+import CorgiProofs.RealDeriv
